@@ -5,7 +5,10 @@ import json, os
 V = os.path.dirname(os.path.dirname(os.path.abspath(__file__)))
 NOTE = " Translated layer: trusted in addition go/parser, go/types, the translator harness/xlate*.go and its target language Xlate/GoSem.v (design/XLATE.md), exercised on every run by a self-test comparing the translations of sample functions with the compiled Go functions on boundary inputs; a function leaving the supported Go subset makes the generator fail loudly and the check report a VIOLATION (no-failing-input-found)."
 ADD = {
- "C13": [("Xlate/BSWLEquiv", " Additionally two parts of BuildStaticWeightList (static check, min/max, guard and clamp of the scaling range; the scaling loop with Go's truncating division, the weight tables and the non-positive indexes) are translated from their CURRENT Go source on every run and proved equal to the corresponding parts of the model, division by zero being an explicit outcome of the translation (Xlate/BSWLEquiv.v, in the closure of Props/C13.v).")],
+ "C13": [("Xlate/BSWLEquiv", " Additionally two parts of BuildStaticWeightList (static check, min/max, guard and clamp of the scaling range; the scaling loop with Go's truncating division, the weight tables and the non-positive indexes) are translated from their CURRENT Go source on every run and proved equal to the corresponding parts of the model, division by zero being an explicit outcome of the translation (Xlate/BSWLEquiv.v, in the closure of Props/C13.v)."),
+         ("Xlate/SelectEquiv", " The three Select functions (round-robin cursor arithmetic modulo 2^64 then modulo the list / cycle length, mod-hash modulo, random table lookup with the draw as an oracle) and the smooth-weighted-round-robin ROUNDS of BuildStaticWeightList (sort.Slice as insertion sort under a comparator proved to be a strict total order; the code's cycle is proved equal to the model's swrr_rounds) are translated from their CURRENT Go source and proved equal to the model (Xlate/SelectEquiv.v, SWRREquiv.v): all of BuildStaticWeightList and every Select are tied by translation; Add/Remove/Refresh remain tied by correspondence.")],
+ "C14": [("Xlate/ConHashEquiv", " Additionally the ring lookup consistenthash.FindInt32 (sort.Search over the sorted keys with wrap-around to the first point) is translated from its CURRENT Go source on every run and proved equal to the model's ring_lookup for every ring whose sorted keys are strictly increasing and hold exactly the ring's points (Xlate/ConHashEquiv.v, in the closure of Props/C14.v; sort.Search is a primitive whose least-index specification is proved for monotone predicates).")],
+ "C09": [("Xlate/TimeWheelEquiv", " Additionally the panic bound and slot arithmetic of TimeWheel.After are translated from their CURRENT Go source and proved equal to the model's after/after_pos (Xlate/TimeWheelEquiv.v, in the closure of Props/C09.v).")],
  "C15": [("Xlate/CheckActiveEquiv", " Additionally AdapterProxy.checkActive (the threshold comparisons that take an endpoint out of rotation and schedule its probe) is translated from its CURRENT Go source on every run and proved to compute the model's check_active (same results, same updates of status and lastBlockTime) with the clock, the ReConnect outcome and the float32 ratio comparison as oracles of the translation (Xlate/CheckActiveEquiv.v, in the closure of Props/C15.v).")],
  "C04": [("Xlate/ReaderEquiv", " The skipping functions themselves (skipField, skipFieldMap/List/SimpleList, SkipToStructEnd with the depth limit, SkipToNoCheck with its require flag, unreadHead) are translated from their CURRENT Go source on every run and proved equal to the model of Codec/Skip.v for all inputs, incl. the ignored element errors, the int32 length*2 product, seeking past the end and the reader position on error paths (Xlate/ReaderEquiv.v, in the closure of Props/C04.v): skip_exact speaks about the code's own skipping, and the model's linear fuel is now PROVED sufficient.")],
  "C05": [("Xlate/ReaderEquiv", " Termination with explicit fuel, the depth limit and the absence of panics of the skipping functions and primitive readers hold of the TRANSLATED source (Xlate/ReaderEquiv.v in the closure of Props/C05.v: the Go text of skipField & co. is regenerated into Gallina on every run and proved equal to the model)."),
